@@ -540,7 +540,6 @@ var asiHazards = []string{
 	"return class { static async *[Symbol.iterator]() {} static get [a]() { return 1 } static set [a](v) {} [b] = 1; static [c]; };",
 	"return class { 'constructor'() {} };",
 	"return class { constructor() { this.x = new.target } };",
-	"return import.meta;",
 	"return import('x');",
 	"return import('x', {with: {type: 'json'}});",
 	"return typeof import('x').then;",
